@@ -240,7 +240,83 @@ theorem client_requests_bounded (cfg : Cfg) (fuel : Nat) (h : Handle) (c : Call)
     (clientExec cfg fuel h c db).reqs.length ≤ fuel + 2 :=
   clientExec_reqs_length cfg fuel h c db
 
+/-! ### what the interface promises besides -/
+
+/-- **Promised exceptions / values**: `Study.get_trial` of a trial that does not exist and
+    `Study.from_resource_name` of a study that does not exist raise ResourceNotFoundError, `suggest` on a
+    study that is not open returns `[]` — every state, every variant. -/
+theorem client_promised_exceptions (cfg : Cfg) (fuel : Nat) (h : Handle) (c : Call) (db : DB) :
+    promisedOK db h c (clientStep cfg fuel h c db).1 = true := by
+  have hsug : ∀ count w alg, openOrNoHandles db h (getSuggestionsAs cfg fuel h count w alg db).obs = true := by
+    intro count w alg
+    unfold openOrNoHandles
+    cases hs : findStudy db h.owner h.sid with
+    | none => rfl
+    | some st =>
+      cases hi : st.immutable with
+      | false => simp [hi]
+      | true =>
+        have hstep : step cfg db (Req.suggest h.owner h.sid w count alg) = (.err .failedPrecondition .handled, db) := by
+          simp [step, onStudy, hs, hi]
+        have : (getSuggestionsAs cfg fuel h count w alg db).obs = .handles [] := by
+          unfold getSuggestionsAs
+          simp only [hstep]
+          rfl
+        simp [this, isNoHandles]
+  cases c with
+  | getTrial id =>
+    simp only [promisedOK]
+    cases hl : lookup db h id with
+    | some t => simp
+    | none =>
+      have hstep : (step cfg db (.getTrial h.owner h.sid id)).1 = .err .notFound .raw := by
+        unfold lookup at hl
+        simp only [step, onStudy]
+        split at hl
+        · rename_i st hs
+          simp [hs, hl]
+        · rename_i hs
+          simp [hs]
+      have : (clientStep cfg fuel h (.getTrial id) db).1 = .exc .resourceNotFound := by
+        simp only [clientStep, clientExec, rpc1, hstep]
+        rfl
+      simp [this, isResourceNotFound]
+  | fromResourceName sid =>
+    simp only [promisedOK]
+    cases hs : findStudy db h.owner sid with
+    | some st => simp
+    | none =>
+      have hstep : step cfg db (.getStudy h.owner sid) = (.err .notFound .raw, db) := by
+        simp [step, onStudy, hs]
+      have : (clientStep cfg fuel h (.fromResourceName sid) db).1 = .exc .resourceNotFound := by
+        simp only [clientStep, clientExec, rpc1, hstep]
+      simp [this, isResourceNotFound]
+  | suggest count w alg => exact hsug count w alg
+  | getSuggestions count alg => exact hsug count h.cid alg
+  | _ => rfl
+
 def hA : Handle := { owner := "o", sid := "s", cid := "unused_client_id" }
+
+/-- one study, trials 1 and 2 ACTIVE for "w1" without measurements, trial 3 queued -/
+def twoActive : History :=
+  [ (hA, .fromStudyConfig 0 []),
+    (hA, .suggest 2 "w1" (.suggestions [⟨1, []⟩, ⟨2, []⟩, ⟨3, []⟩] [])) ]
+
+/-- **Finding (code as it exists)**: `Trial.complete()` with nothing to select a final measurement from
+    does NOT raise the documented `ValueError`: the service reports the ValueError as status UNKNOWN and the
+    client passes the `RpcError` on. -/
+theorem client_complete_value_error_counterexample :
+    nothingToSelect (creach Cfg.fixed 3 twoActive) hA 2 none = true ∧
+    valueErrorOK (creach Cfg.fixed 3 twoActive) hA (.complete 2 none none)
+      (clientStep Cfg.fixed 3 hA (.complete 2 none none) (creach Cfg.fixed 3 twoActive)).1 = false := by decide
+
+/-- **Finding (code as it exists)**: `Trial.check_early_stopping()` returns True when the algorithm says
+    stop, but the trial is not moved to STOPPING as `TrialInterface.check_early_stopping` documents. -/
+theorem client_early_stop_counterexample :
+    earlyStopOK (clientStep Cfg.fixed 3 hA (.checkEarlyStopping 2 (.decisions [(2, true)] [])) (creach Cfg.fixed 3 twoActive)).2 hA
+      (.checkEarlyStopping 2 (.decisions [(2, true)] []))
+      (clientStep Cfg.fixed 3 hA (.checkEarlyStopping 2 (.decisions [(2, true)] [])) (creach Cfg.fixed 3 twoActive)).1 = false := by
+  decide
 
 /-- the service at the pinned commit after an in-process algorithm failure (C06's wedge witness) -/
 def stuckDb : DB :=
